@@ -33,6 +33,8 @@ const (
 // AppDB is responsible for storing basic information about app state on disk
 type AppDB struct {
 	db db.DB
+	// batch collects the records of one Commit so that they reach the disk atomically
+	batch db.Batch
 	WG sync.WaitGroup
 	mu sync.Mutex
 
@@ -62,6 +64,34 @@ func (appDB *AppDB) Close() error {
 	return nil
 }
 
+// set writes a record: into the commit batch when one is open, else directly
+func (appDB *AppDB) set(key, value []byte) error {
+	if appDB.batch != nil {
+		return appDB.batch.Set(key, value)
+	}
+	return appDB.db.Set(key, value)
+}
+
+// StartBatch opens a batch: all following Set*/Save*/Flush* calls are collected until WriteBatch.
+// A block's hash, height, validators, block times, versions, emission and price must become
+// durable together, otherwise a crash in between leaves a height whose other records are stale.
+func (appDB *AppDB) StartBatch() {
+	appDB.batch = appDB.db.NewBatch()
+}
+
+// WriteBatch writes the collected records atomically, panics on error
+func (appDB *AppDB) WriteBatch() {
+	if appDB.batch == nil {
+		return
+	}
+	appDB.WG.Wait()
+	if err := appDB.batch.WriteSync(); err != nil {
+		panic(err)
+	}
+	_ = appDB.batch.Close()
+	appDB.batch = nil
+}
+
 // GetLastBlockHash returns latest block hash stored on disk
 func (appDB *AppDB) GetLastBlockHash() []byte {
 	appDB.mu.Lock()
@@ -87,7 +117,7 @@ func (appDB *AppDB) GetLastBlockHash() []byte {
 func (appDB *AppDB) SetLastBlockHash(hash []byte) {
 	appDB.WG.Wait()
 
-	if err := appDB.db.Set([]byte(hashPath), hash); err != nil {
+	if err := appDB.set([]byte(hashPath), hash); err != nil {
 		panic(err)
 	}
 }
@@ -122,7 +152,7 @@ func (appDB *AppDB) SetLastHeight(height uint64) {
 
 	appDB.WG.Wait()
 
-	if err := appDB.db.Set([]byte(heightPath), h); err != nil {
+	if err := appDB.set([]byte(heightPath), h); err != nil {
 		panic(err)
 	}
 
@@ -141,7 +171,7 @@ func (appDB *AppDB) SaveStartHeight() {
 
 	appDB.WG.Wait()
 
-	if err := appDB.db.Set([]byte(startHeightPath), h); err != nil {
+	if err := appDB.set([]byte(startHeightPath), h); err != nil {
 		panic(err)
 	}
 }
@@ -217,7 +247,7 @@ func (appDB *AppDB) FlushValidators() {
 
 	appDB.WG.Wait()
 
-	if err := appDB.db.Set([]byte(validatorsPath), data); err != nil {
+	if err := appDB.set([]byte(validatorsPath), data); err != nil {
 		panic(err)
 	}
 	appDB.validators = nil
@@ -297,7 +327,7 @@ func (appDB *AppDB) SaveBlocksTime() {
 
 	appDB.WG.Wait()
 
-	if err := appDB.db.Set([]byte(blocksTimePath), data); err != nil {
+	if err := appDB.set([]byte(blocksTimePath), data); err != nil {
 		panic(err)
 	}
 }
@@ -378,7 +408,7 @@ func (appDB *AppDB) SaveVersions() {
 
 	appDB.WG.Wait()
 
-	if err := appDB.db.Set([]byte(versionsPath), data); err != nil {
+	if err := appDB.set([]byte(versionsPath), data); err != nil {
 		panic(err)
 	}
 
@@ -421,7 +451,7 @@ func (appDB *AppDB) SaveEmission() {
 	}
 
 	appDB.WG.Wait()
-	if err := appDB.db.Set([]byte(emissionPath), appDB.emission.Bytes()); err != nil {
+	if err := appDB.set([]byte(emissionPath), appDB.emission.Bytes()); err != nil {
 		panic(err)
 	}
 	appDB.isDirtyEmission = false
@@ -567,7 +597,7 @@ func (appDB *AppDB) SavePrice() {
 		panic(err)
 	}
 
-	err = appDB.db.Set([]byte(pricePath), bytes)
+	err = appDB.set([]byte(pricePath), bytes)
 	if err != nil {
 		panic(err)
 	}
